@@ -1347,6 +1347,7 @@ def config_scope(name_or_scope):
     The resulting config scope (a list of all active scope names, ordered from
     outermost to innermost).
   """
+  scope_entered = False
   try:
     valid_value = True
     if isinstance(name_or_scope, list):
@@ -1361,6 +1362,7 @@ def config_scope(name_or_scope):
     # Append new_scope first. It will be popped in the finally block if an
     # exception is raised below.
     _SCOPE_MANAGER.enter_scope(new_scope)
+    scope_entered = True
 
     scopes_are_valid = map(config_parser.MODULE_RE.match, new_scope)
     if not valid_value or not all(scopes_are_valid):
@@ -1369,7 +1371,10 @@ def config_scope(name_or_scope):
 
     yield new_scope
   finally:
-    _SCOPE_MANAGER.exit_scope()
+    # Only pop what was pushed: evaluating `name_or_scope` above can raise (e.g.,
+    # an object whose truth value is undefined) before anything was entered.
+    if scope_entered:
+      _SCOPE_MANAGER.exit_scope()
 
 
 _FnOrClsOrSelector = Union[Callable[..., Any], Type[Any], str]
